@@ -5,6 +5,7 @@ import fcntl
 import hashlib
 import json
 import os
+import tempfile
 import random
 import re
 import shutil
@@ -122,6 +123,57 @@ def write_if_changed(path, content):
     return True
 
 
+CURRENT_PROP = None      # set by check.py: the property whose check is running
+
+
+def needed_models(prop):
+    """driver modules the check of `prop` needs: its own, the ones its driver imports, the shared hook model"""
+    ids, todo = [], [prop, "Mcount"]
+    try:
+        if "Mcount" not in open(os.path.join(VERIF, "checks", prop.lower() + ".py")).read() and \
+                os.path.exists(os.path.join(LEAN, "Driver", prop + ".lean")):
+            todo = [prop]
+    except OSError:
+        pass
+    while todo:
+        i = todo.pop()
+        f = os.path.join(LEAN, "Driver", i + ".lean")
+        if i in ids or not os.path.exists(f):
+            continue
+        ids.append(i)
+        todo += re.findall(r"^import Driver\.(\w+)", open(f).read(), re.M)
+    return [i for i in ids if i not in ("Proto", "Dispatch")]
+
+
+def uvmodel_path():
+    return os.environ.get("UVMODEL_EXE") or os.path.join(LEAN, ".lake", "build", "bin", "uvmodel")
+
+
+def _private_uvmodel(prop, targets):
+    """Fallback when the shared driver executable does not build because the driver of ANOTHER property is
+    broken (e.g. a change to /repo broke that property's regenerated definitions): build a driver with only
+    the models this check needs, keep a private copy, and leave the shared dispatch as it was.  Without this
+    a defect under one property would raise proof-obligation alarms under all the others."""
+    import fcntl
+    ids = needed_models(prop)
+    lockf = open(os.path.join(LEAN, ".lake", "verif-exe.lock"), "w")
+    fcntl.flock(lockf, fcntl.LOCK_EX)
+    try:
+        gen = os.path.join(VERIF, "tools", "gen_dispatch.py")
+        sh(["python3", gen], env=dict(os.environ, VERIF_DISPATCH="only:" + ",".join(ids)))
+        r = sh(["lake", "build"] + list(targets), cwd=LEAN)
+        if r.returncode == 0:
+            d = tempfile.mkdtemp(prefix="uv-exe-%s-" % prop, dir="/var/tmp")
+            shutil.copy(os.path.join(LEAN, ".lake", "build", "bin", "uvmodel"), os.path.join(d, "uvmodel"))
+            os.environ["UVMODEL_EXE"] = os.path.join(d, "uvmodel")
+            atexit.register(shutil.rmtree, d, True)
+        sh(["python3", gen])
+        return r
+    finally:
+        fcntl.flock(lockf, fcntl.LOCK_UN)
+        lockf.close()
+
+
 def lake_build(targets):
     """lake build of the given module targets (+ the driver). Returns (ok, log)."""
     r = sh([os.path.join(VERIF, "tools", "lk"), "build"] + list(targets))
@@ -129,6 +181,10 @@ def lake_build(targets):
         # a driver of a property that is still under construction does not compile:
         # rebuild the dispatcher with the claimed properties' drivers only
         r = sh([os.path.join(VERIF, "tools", "lk"), "build"] + list(targets), env=dict(os.environ, VERIF_DISPATCH="claimed"))
+    if r.returncode != 0 and "uvmodel" in targets and CURRENT_PROP:
+        r2 = _private_uvmodel(CURRENT_PROP, targets)
+        if r2.returncode == 0:
+            return True, r2.stdout
     return r.returncode == 0, r.stdout
 
 
@@ -220,7 +276,7 @@ def audit(ctx, prop):
 
 
 def run_model(model, lines, timeout=600):
-    exe = os.path.join(LEAN, ".lake", "build", "bin", "uvmodel")
+    exe = uvmodel_path()
     r = subprocess.run([exe, model], input="\n".join(lines) + "\n", stdout=subprocess.PIPE,
                        stderr=subprocess.PIPE, text=True, timeout=timeout)
     if r.returncode != 0:
